@@ -19,7 +19,7 @@ RULE = ("every (key space, name) pair of the frozen vocabulary table (15 closed 
         "closed space with each value shape valid there (must be rejected). distinct = (space, name, direction / "
         "target space, value shape); all cases are non-trivial (each names a different vocabulary entry or cross "
         "placement)")
-MIN_DISTINCT = {"quick": 1500, "thorough": 1500}
+MIN_DISTINCT = {"quick": 2500, "thorough": 2500}
 ASSUMPTIONS = ["registry.py is my reading of the IANA/draft registries; vendor-private codes frozen as shipped",
                "suit-delegation (standard encoding not confirmed offline, F7a) is checked for its code only through "
                "the cross-placement direction", "open key spaces (language tags, payload names, authentication block "
@@ -90,17 +90,19 @@ for _n in list(R.CONDITIONS) + list(R.DIRECTIVES_POLICY):
 # value shapes valid in each target space (used for cross placement): if the foreign name were accepted as an alias
 # of some member, one of these values would make create succeed
 SHAPES = {
-    "envelope": [[], {"en": {}}],
-    "manifest": [1, "uri", [], ["M"], {"suit-components": []},
+    "envelope": [[], {"en": {}}, "00a1", "", {"SUIT_Envelope_Tagged": {
+        "suit-authentication-wrapper": {"SuitDigest": {"suit-digest-algorithm-id": "cose-alg-sha-256"}},
+        "suit-manifest": {"suit-manifest-version": 1, "suit-manifest-sequence-number": 1, "suit-common": {}}}}],
+    "manifest": [1, "uri", "00a1", [], ["M"], {"suit-components": []},
                  {"suit-digest-algorithm-id": "cose-alg-sha-256", "suit-digest-bytes": "00" * 32}],
-    "common": [{"0": {}}, [["M"]], []],
+    "common": [{"0": {}}, [["M"]], [], "00a1"],
     "dependency-metadata": [["M"]],
     "command": [[], ["suit-send-record-failure"], 0, [[]], {"suit-parameter-component-slot": 1}],
     "parameter": [{"raw": "00" * 16}, 1, True, {"raw": 5}, "abcd", "#x", {"suit-timeout": 1},
                   {"suit-digest-algorithm-id": "cose-alg-sha-256", "suit-digest-bytes": "00" * 32},
                   {"suit-condition-version-comparison-greater": [1]}],
-    "text": ["text"],
-    "text-component": ["ctext"],
+    "text": ["text", "00a1"],
+    "text-component": ["ctext", "00a1"],
     "cose-header": ["cose-alg-es-256", 1, "00" * 12],
     "cwt": ["i", 1, "0102"],
     "invoke-args": [True, 5],
